@@ -38,14 +38,18 @@ CHECKS = {
              "matches, and the conjunction laws on the recorded verdicts.",
         design_ref="6 (C11)"),
     "C12": dict(
-        technique="TLC model checking of the law invariants and the monotonicity action property on RuleSem; the "
-                  "model's transition graph replayed into the real code; laws evaluated by TLC on recorded real verdicts",
-        text="Duality, negation, decomposition, the anything alias and batch conjunction are INVARIANTs, monotonicity a "
-             "[][..]_vars PROPERTY, checked by TLC on every state and transition of the bounded model for the whole rule "
-             "space (related modules included). Every state and single-edge addition TLC emits is replayed into real "
-             "architectures; the trace specification re-derives which evaluated rules are partners and checks each law "
-             "on the verdicts the real code returned.",
-        design_ref="6 (C12)"),
+        technique="TLAPS proofs of the rule algebra for arbitrary graphs (spec/Laws.tla, 179 obligations) bound to "
+                  "RuleSem by a TLC-checked agreement invariant; TLC model checking of the law invariants and the "
+                  "monotonicity action property on RuleSem; the model's transition graph replayed into the real code; "
+                  "laws evaluated by TLC on recorded real verdicts",
+        text="Duality, negation, decomposition, monotonicity and the should-not batch law are proved with the TLA+ proof "
+             "system for arbitrary denotations, import relations and rules (Laws.tla); the same laws plus the anything "
+             "alias and batch conjunction are INVARIANTs / a [][..]_vars PROPERTY checked by TLC on every state and "
+             "transition of the bounded model for the whole rule space (related modules included). Every state and "
+             "single-edge addition TLC emits is replayed into real architectures (also rendered with adversarial names); "
+             "the trace specification re-derives which evaluated rules are partners and checks each law on the verdicts "
+             "the real code returned.",
+        design_ref="6 (C12), 13.3"),
     "C13": dict(
         technique="TLA+ builder automata (Builders.tla) explored by TLC with a history variable; every emitted call "
                   "history replayed on fresh real objects and validated call by call against the automata with TLC",
